@@ -18,6 +18,11 @@ Kernels
        nothing extra, document order, numbers 1..n, content type, pixel size, unit attribution, unit
        views == document iterators
   K3v  unit views vs document iterators on content instances (pdf, pptx, xlsx, odp, ods)
+  K4   shared media x access order: generated pptx/docx/xlsx/epub/odp packages in which every anchor
+       chooses the media part it shows (a new one or any part shown earlier: one relationship reused,
+       several relationships with one Target, the same part on several units), read by a consumer whose
+       opening / chunked reading of two returned images is interleaved in every possible way: each
+       image still delivers the embedded file, numbering/order/attribution as in K3
 
 Oracles are written from the file-format specifications (PNG 1.2 section 11.2.2, GIF89a section 18,
 BMP BITMAPFILEHEADER + DIB header, ITU T.81 Annex B), from ECMA-376 part 2 (OPC) / RFC 3986 5.2 and
@@ -745,8 +750,12 @@ def content_types(overrides):
 
 def _zip(members):
     b = io.BytesIO()
+    seen = set()
     with zipfile.ZipFile(b, "w", zipfile.ZIP_DEFLATED) as z:
         for name, data in members:
+            if name in seen:            # a media part shown by several anchors is stored once
+                continue
+            seen.add(name)
             z.writestr(name, data)
     b.seek(0)
     return b
@@ -760,7 +769,17 @@ _PPTX_TABLE = ('<p:graphicFrame><p:nvGraphicFramePr><p:cNvPr id="90" name="T"/><
                '</a:graphicData></a:graphic></p:graphicFrame>')
 
 
-def write_pptx(units, reverse_rels=False):
+def _rid_for(rid_of, one_rel, m, k):
+    """relationship id of the k-th anchor of a part showing media number m: with one_rel a part holds ONE
+    relationship per media part and repeated anchors reuse its id, otherwise one relationship per anchor
+    (several relationships with the same Target).  -> (id, is a new relationship)"""
+    if one_rel and m in rid_of:
+        return rid_of[m], False
+    rid_of[m] = "rId%d" % (k + 1)
+    return rid_of[m], True
+
+
+def write_pptx(units, reverse_rels=False, one_rel=False):
     P = "http://schemas.openxmlformats.org/presentationml/2006/main"
     mem = [("[Content_Types].xml", content_types(
         [("/ppt/presentation.xml", "application/vnd.openxmlformats-officedocument.presentationml.presentation.main+xml")] +
@@ -774,16 +793,18 @@ def write_pptx(units, reverse_rels=False):
                     P, R, "".join('<p:sldId id="%d" r:id="rId%d"/>' % (256 + i, i + 1) for i in range(len(units))))))
     n = 0
     for si, imgs in enumerate(units):
-        pics, rl = [], []
+        pics, rl, rid_of = [], [], {}
         for k, im in enumerate(imgs):
             n += 1
-            rid = "rId%d" % (k + 1)
-            rl.append((rid, R + "/image", "../media/image%d.%s" % (n, im["ext"])))
+            m = im.get("media", n)          # media number: anchors of the shared-media kernel name theirs
+            rid, new = _rid_for(rid_of, one_rel, m, k)
+            if new:
+                rl.append((rid, R + "/image", "../media/image%d.%s" % (m, im["ext"])))
             pics.append('<p:pic><p:nvPicPr><p:cNvPr id="%d" name="Picture %d"/><p:cNvPicPr/><p:nvPr/></p:nvPicPr>'
                         '<p:blipFill><a:blip r:embed="%s"/></p:blipFill><p:spPr><a:xfrm><a:off x="0" y="%d"/>'
                         '<a:ext cx="952500" cy="952500"/></a:xfrm></p:spPr></p:pic>' % (k + 2, k + 1, rid, 1000 * (k + 1)))
             if im["present"]:
-                mem.append(("ppt/media/image%d.%s" % (n, im["ext"]), im["data"]))
+                mem.append(("ppt/media/image%d.%s" % (m, im["ext"]), im["data"]))
         mem.append(("ppt/slides/slide%d.xml" % (si + 1),
                     '<?xml version="1.0" encoding="UTF-8"?><p:sld xmlns:p="%s" xmlns:a="%s" xmlns:r="%s"><p:cSld><p:spTree>'
                     '<p:nvGrpSpPr><p:cNvPr id="1" name=""/><p:cNvGrpSpPr/><p:nvPr/></p:nvGrpSpPr><p:grpSpPr/>%s</p:spTree></p:cSld></p:sld>' % (
@@ -791,21 +812,23 @@ def write_pptx(units, reverse_rels=False):
         mem.append(("ppt/slides/_rels/slide%d.xml.rels" % (si + 1), rels_xml(rl[::-1] if reverse_rels else rl)))
     return _zip(mem)
 
-def write_docx(units, reverse_rels=False):
+def write_docx(units, reverse_rels=False, one_rel=False):
     W = "http://schemas.openxmlformats.org/wordprocessingml/2006/main"
     imgs = units[0]
     mem = [("[Content_Types].xml", content_types(
         [("/word/document.xml", "application/vnd.openxmlformats-officedocument.wordprocessingml.document.main+xml")])),
         ("_rels/.rels", rels_xml([("rId1", R + "/officeDocument", "word/document.xml")]))]
-    paras, rl = ['<w:p><w:r><w:t>intro</w:t></w:r></w:p>'], []
+    paras, rl, rid_of = ['<w:p><w:r><w:t>intro</w:t></w:r></w:p>'], [], {}
     for k, im in enumerate(imgs):
-        rid = "rId%d" % (k + 10)
-        rl.append((rid, R + "/image", "media/image%d.%s" % (k + 1, im["ext"])))
+        m = im.get("media", k + 1)
+        rid, new = _rid_for(rid_of, one_rel, m, k + 9)
+        if new:
+            rl.append((rid, R + "/image", "media/image%d.%s" % (m, im["ext"])))
         paras.append('<w:p><w:r><w:drawing><wp:inline><a:graphic><a:graphicData><pic:pic><pic:nvPicPr><pic:cNvPr id="%d" name="Picture %d"/>'
                      '</pic:nvPicPr><pic:blipFill><a:blip r:embed="%s"/></pic:blipFill></pic:pic></a:graphicData></a:graphic>'
                      '</wp:inline></w:drawing></w:r></w:p>' % (k + 1, k + 1, rid))
         if im["present"]:
-            mem.append(("word/media/image%d.%s" % (k + 1, im["ext"]), im["data"]))
+            mem.append(("word/media/image%d.%s" % (m, im["ext"]), im["data"]))
     mem.append(("word/document.xml",
                 '<?xml version="1.0" encoding="UTF-8"?><w:document xmlns:w="%s" xmlns:wp="http://schemas.openxmlformats.org/drawingml/2006/wordprocessingDrawing" '
                 'xmlns:a="%s" xmlns:pic="http://schemas.openxmlformats.org/drawingml/2006/picture" xmlns:r="%s"><w:body>%s</w:body></w:document>' % (
@@ -813,7 +836,7 @@ def write_docx(units, reverse_rels=False):
     mem.append(("word/_rels/document.xml.rels", rels_xml(rl[::-1] if reverse_rels else rl)))
     return _zip(mem)
 
-def write_epub(units, reverse_rels=False):
+def write_epub(units, reverse_rels=False, one_rel=False):
     imgs = [im for u in units for im in u]
     items = ['<item id="ch%d" href="ch%d.xhtml" media-type="application/xhtml+xml"/>' % (i + 1, i + 1) for i in range(len(units))]
     img_items = []
@@ -825,10 +848,13 @@ def write_epub(units, reverse_rels=False):
         body = ["<p>chapter %d</p>" % (ui + 1)]
         for im in u:
             n += 1
-            img_items.append('<item id="img%d" href="images/i%d.%s" media-type="%s"/>' % (n, n, im["ext"], im["ctype"]))
-            body.append('<p><img src="images/i%d.%s" alt="x"/></p>' % (n, im["ext"]))
+            m = im.get("media", n)
+            item = '<item id="img%d" href="images/i%d.%s" media-type="%s"/>' % (m, m, im["ext"], im["ctype"])
+            if item not in img_items:       # one manifest item per resource, however often it is shown
+                img_items.append(item)
+            body.append('<p><img src="images/i%d.%s" alt="x"/></p>' % (m, im["ext"]))
             if im["present"]:
-                mem.append(("OEBPS/images/i%d.%s" % (n, im["ext"]), im["data"]))
+                mem.append(("OEBPS/images/i%d.%s" % (m, im["ext"]), im["data"]))
         mem.append(("OEBPS/ch%d.xhtml" % (ui + 1), '<?xml version="1.0" encoding="UTF-8"?><html xmlns="http://www.w3.org/1999/xhtml"><head><title>c%d</title></head><body>%s</body></html>' % (ui + 1, "".join(body))))
     if reverse_rels:
         img_items = img_items[::-1]
@@ -837,7 +863,7 @@ def write_epub(units, reverse_rels=False):
                 '<manifest>%s</manifest><spine>%s</spine></package>' % ("".join(items + img_items), "".join('<itemref idref="ch%d"/>' % (i + 1) for i in range(len(units))))))
     return _zip(mem)
 
-def write_odp(units, reverse_rels=False):
+def write_odp(units, reverse_rels=False, one_rel=False):
     NS = ('xmlns:office="urn:oasis:names:tc:opendocument:xmlns:office:1.0" xmlns:draw="urn:oasis:names:tc:opendocument:xmlns:drawing:1.0" '
           'xmlns:text="urn:oasis:names:tc:opendocument:xmlns:text:1.0" xmlns:xlink="http://www.w3.org/1999/xlink" '
           'xmlns:svg="urn:oasis:names:tc:opendocument:xmlns:svg-compatible:1.0" xmlns:presentation="urn:oasis:names:tc:opendocument:xmlns:presentation:1.0" '
@@ -850,11 +876,12 @@ def write_odp(units, reverse_rels=False):
         frames = []
         for im in u:
             n += 1
-            href = "Pictures/i%d.%s" % (n, im["ext"])
+            href = "Pictures/i%d.%s" % (im.get("media", n), im["ext"])
             frames.append('<draw:frame draw:name="f%d" svg:x="1cm" svg:y="%dcm"><draw:image xlink:href="%s" xlink:type="simple"/></draw:frame>' % (n, n, href))
-            if im["present"]:
+            entry = '<manifest:file-entry manifest:full-path="%s" manifest:media-type="%s"/>' % (href, im["ctype"])
+            if im["present"] and entry not in man:
                 mem.append((href, im["data"]))
-                man.append('<manifest:file-entry manifest:full-path="%s" manifest:media-type="%s"/>' % (href, im["ctype"]))
+                man.append(entry)
         pages.append('<draw:page draw:name="page%d">%s</draw:page>' % (ui + 1, "".join(frames)))
     mem.append(("content.xml", '<?xml version="1.0" encoding="UTF-8"?><office:document-content %s office:version="1.2"><office:body><office:presentation>%s</office:presentation></office:body></office:document-content>' % (NS, "".join(pages))))
     mem.append(("META-INF/manifest.xml", '<?xml version="1.0" encoding="UTF-8"?><manifest:manifest xmlns:manifest="urn:oasis:names:tc:opendocument:xmlns:manifest:1.0">%s</manifest:manifest>' % "".join(man)))
@@ -863,7 +890,7 @@ def write_odp(units, reverse_rels=False):
 _S_NS = "http://schemas.openxmlformats.org/spreadsheetml/2006/main"
 _XDR = "http://schemas.openxmlformats.org/drawingml/2006/spreadsheetDrawing"
 
-def write_xlsx(units, reverse_rels=False, swap_files=False, anchors=("one",), ext_px=None):
+def write_xlsx(units, reverse_rels=False, swap_files=False, anchors=("one",), ext_px=None, one_rel=False):
     """units: per sheet (tab order) list of images.  swap_files: the first tab lives in sheet2.xml and the
     second in sheet1.xml (what Excel leaves behind after the tabs are reordered)."""
     ns = len(units)
@@ -883,11 +910,13 @@ def write_xlsx(units, reverse_rels=False, swap_files=False, anchors=("one",), ex
         f = file_of[si]
         mem.append(("xl/worksheets/sheet%d.xml" % f, '<?xml version="1.0" encoding="UTF-8"?><worksheet xmlns="%s" xmlns:r="%s"><sheetData><row r="1"><c r="A1" t="inlineStr"><is><t>tab %d</t></is></c></row></sheetData><drawing r:id="rId1"/></worksheet>' % (_S_NS, R, si + 1)))
         mem.append(("xl/worksheets/_rels/sheet%d.xml.rels" % f, rels_xml([("rId1", R + "/drawing", "../drawings/drawing%d.xml" % f)])))
-        anchors_xml, rl = [], []
+        anchors_xml, rl, rid_of = [], [], {}
         for k, im in enumerate(imgs):
             n += 1
-            rid = "rId%d" % (k + 1)
-            rl.append((rid, R + "/image", "../media/image%d.%s" % (n, im["ext"])))
+            m = im.get("media", n)
+            rid, new = _rid_for(rid_of, one_rel, m, k)
+            if new:
+                rl.append((rid, R + "/image", "../media/image%d.%s" % (m, im["ext"])))
             pic = ('<xdr:pic><xdr:nvPicPr><xdr:cNvPr id="%d" name="Picture %d"/><xdr:cNvPicPr/></xdr:nvPicPr><xdr:blipFill><a:blip r:embed="%s"/></xdr:blipFill><xdr:spPr/></xdr:pic><xdr:clientData/>' % (k + 2, k + 1, rid))
             kind = anchors[k % len(anchors)]
             frm = '<xdr:from><xdr:col>0</xdr:col><xdr:colOff>0</xdr:colOff><xdr:row>%d</xdr:row><xdr:rowOff>0</xdr:rowOff></xdr:from>' % (k * 3)
@@ -898,7 +927,7 @@ def write_xlsx(units, reverse_rels=False, swap_files=False, anchors=("one",), ex
                 to = '<xdr:to><xdr:col>2</xdr:col><xdr:colOff>0</xdr:colOff><xdr:row>%d</xdr:row><xdr:rowOff>0</xdr:rowOff></xdr:to>' % (k * 3 + 2)
                 anchors_xml.append('<xdr:twoCellAnchor>%s%s%s</xdr:twoCellAnchor>' % (frm, to, pic))
             if im["present"]:
-                mem.append(("xl/media/image%d.%s" % (n, im["ext"]), im["data"]))
+                mem.append(("xl/media/image%d.%s" % (m, im["ext"]), im["data"]))
         mem.append(("xl/drawings/drawing%d.xml" % f, '<?xml version="1.0" encoding="UTF-8"?><xdr:wsDr xmlns:xdr="%s" xmlns:a="%s" xmlns:r="%s">%s</xdr:wsDr>' % (_XDR, A, R, "".join(anchors_xml))))
         mem.append(("xl/drawings/_rels/drawing%d.xml.rels" % f, rels_xml(rl[::-1] if reverse_rels else rl)))
     return _zip(mem)
@@ -1073,6 +1102,173 @@ def _k3_parts(tier):
 
 
 # ---------------------------------------------------------------------------------------
+# K4: media parts shared between anchors x the order in which a consumer opens and reads the images
+# ---------------------------------------------------------------------------------------
+import itertools
+
+# every interleaving of the three steps (open, read a first chunk, read the rest) of two images:
+# the 20 words over {0, 1} with three letters each
+_K4_PATTERNS = sorted(set(itertools.permutations((0, 0, 0, 1, 1, 1))))
+
+
+def _k4_model(ctx, n_units, per_unit, max_total, allow_missing):
+    """symbolic structure: anchors per unit, and for every anchor WHICH media part it shows - any part an
+    earlier anchor (of this or an earlier unit) shows, or a new one.  Anchors showing the same part hold
+    the same dict.  -> (units, media pool)"""
+    pool, units, total = [], [], 0
+    for u in range(n_units):
+        if u == 0 and ctx.params.get("first_unit") is not None:
+            k = ctx.params["first_unit"]        # partition of the structure space by the first unit's anchors
+        else:
+            k = ctx.choice("anchors_on_unit%d" % u, min(per_unit, max_total - total) + 1)
+        total += k
+        row = []
+        for j in range(k):
+            m = ctx.choice("media_of_anchor%d_%d" % (u, j), len(pool) + 1) if pool else 0
+            if m == len(pool):
+                ext, ctype, mk = KINDS[m % 4]
+                size = (4 + m, 6 + 2 * m)
+                present = not (allow_missing and ctx.flag("media%d_missing_from_package" % m))
+                pool.append(dict(ext=ext, ctype=ctype, data=mk(*size), present=present, size=size, media=m + 1))
+            row.append(pool[m])
+        units.append(row)
+    return units, pool
+
+
+def _k4_consume(ctx, imgs, chunks):
+    """The consumer.  Either every image is opened and read to the end before the next one is touched, or
+    two of the returned images (every pair) are opened and read in two pieces with their six steps
+    interleaved in every possible way (this contains: all opened before any is read, read in reverse
+    order, alternating chunks); the remaining images are read afterwards.  One stream per image.
+    -> (bytes delivered per image, description of the schedule)"""
+    g = len(imgs)
+    pairs = [(i, j) for i in range(g) for j in range(i + 1, g)]
+    mode = ctx.choice("interleaved_pair", len(pairs) + 1) if pairs else 0
+    out = [None] * g
+    sched = "one-after-the-other"
+    if mode:
+        pair = pairs[mode - 1]
+        pattern = _K4_PATTERNS[ctx.choice("interleaving", len(_K4_PATTERNS))]
+        chunk = chunks[ctx.choice("first_read_size", len(chunks))]
+        sched = "images %d,%d steps %s first-read %d" % (pair[0] + 1, pair[1] + 1, "".join(str(pair[w] + 1) for w in pattern), chunk)
+        stream, pieces, step = {}, {pair[0]: [], pair[1]: []}, {pair[0]: 0, pair[1]: 0}
+        for w in pattern:
+            x = pair[w]
+            if step[x] == 0:
+                stream[x] = imgs[x].get_bytes()
+            elif step[x] == 1:
+                pieces[x].append(stream[x].read(chunk))
+            else:
+                pieces[x].append(stream[x].read())
+            step[x] += 1
+        for x in pair:
+            if ctx.perturb == "pieces_joined_in_reverse":
+                pieces[x].reverse()
+            out[x] = b"".join(pieces[x])
+    for x in range(g):
+        if out[x] is None:
+            out[x] = imgs[x].get_bytes().read()
+    return out, sched
+
+
+def _embeds(sub, seq):
+    """sub is a subsequence of seq (None components of a sub item match anything)"""
+    pos = 0
+    for item in sub:
+        while pos < len(seq) and not all(a is None or a == b for a, b in zip(item, seq[pos])):
+            pos += 1
+        if pos == len(seq):
+            return False
+        pos += 1
+    return True
+
+
+def _first_uses(seq):
+    return list(dict.fromkeys(seq))
+
+
+def k4_shared_media(ctx):
+    fmt = ctx.params["format"]
+    writer, reader, unit_format, max_units = _k3_formats()[fmt]
+    n_units = ctx.params["units"]
+    units, pool = _k4_model(ctx, n_units, ctx.params["per_unit"], ctx.params["max_total"], ctx.params.get("missing", False))
+    one_rel = bool(ctx.params.get("one_rel"))
+    blob = writer(units, False, one_rel=one_rel)
+    try:
+        content = next(iter(reader(blob, "x." + fmt)))
+        imgs = list(content.iterate_images())
+    except Exception as e:
+        ctx.fail("reader-raised", exc=type(e).__name__, msg=str(e)[:120])
+    shape = {"anchors": [[im["media"] for im in u] for u in units], "missing": [im["media"] for im in pool if not im["present"]],
+             "one_relationship_per_media": one_rel}
+    try:
+        delivered, sched = _k4_consume(ctx, imgs, ctx.params["chunks"])
+        ctypes = [(i.get_content_type(), dict(i.get_metadata())) for i in imgs]
+    except Exception as e:
+        ctx.fail("image-access-raised", exc=type(e).__name__, msg=str(e)[:120], **shape)
+    shape["schedule"] = sched
+    # what the document shows, anchor by anchor (document order); a part missing from the package shows nothing
+    shown = [(im["media"], ui + 1) for ui, u in enumerate(units) for im in u if im["present"]]
+    by_bytes = {im["data"]: im for im in pool if im["present"]}
+    # bit-exact and nothing the document does not contain - whatever the order of opening and reading
+    for k, b in enumerate(delivered):
+        ctx.require(b in by_bytes, "returned-bytes-not-in-document", image=k + 1, delivered=len(b),
+                    of_lengths=sorted(len(x) for x in by_bytes), **shape)
+    got = [by_bytes[b] for b in delivered]
+    seq = [im["media"] for im in got]
+    aseq = [m for m, _ in shown]
+    # the property leaves open whether a part shown by several anchors is returned per anchor or once:
+    # the returned sequence must lie between "first uses only" and "every anchor", in document order
+    ctx.require(set(seq) == set(aseq) and all(seq.count(m) <= aseq.count(m) for m in set(seq)),
+                "image-lost-or-duplicated", got=seq, shown=aseq, **shape)
+    ctx.require(_embeds([(m,) for m in seq], [(m,) for m in aseq]) and _first_uses(seq) == _first_uses(aseq),
+                "order-differs-from-document-order", got=seq, shown=aseq, **shape)
+    if ctx.perturb == "shared_part_returned_once":
+        ctx.require(seq == _first_uses(aseq), "image-lost-or-duplicated", got=seq, shown=aseq, twin=True, **shape)
+    numbers = [m["image_number"] for _, m in ctypes]
+    want = list(range(1, len(seq) + 1)) if ctx.perturb != "numbers_from_zero" else list(range(len(seq)))
+    ctx.require(numbers == want, "numbers-not-1..n", numbers=numbers, **shape)
+    for k, (ctype, meta) in enumerate(ctypes):
+        ctx.require(ctype == got[k]["ctype"] and meta["content_type"] == got[k]["ctype"], "content-type-differs",
+                    expected=got[k]["ctype"], got=ctype, **shape)
+        if fmt != "odp":
+            ctx.require((meta["width"], meta["height"]) == got[k]["size"], "pixel-size-not-reported",
+                        expected=list(got[k]["size"]), got=[meta["width"], meta["height"]], kind=got[k]["ext"], **shape)
+    # units: everything reachable from a unit is reachable from the document; unit formats: same sequence,
+    # every image on a unit that shows its part, in an order the anchors allow
+    ulist = list(content.iterate_units())
+    try:
+        per_unit = [[i.get_bytes().read() for i in u.get_images()] for u in ulist]
+    except Exception as e:
+        ctx.fail("image-access-raised", exc=type(e).__name__, msg=str(e)[:120], **shape)
+    via_units = [b for row in per_unit for b in row]
+    ctx.require(all(b in delivered for b in via_units), "unit-image-not-in-document-iterator", **shape)
+    if unit_format:
+        ctx.require(len(ulist) == n_units, "unit-count-differs", got=len(ulist), **shape)
+        ctx.require(via_units == delivered, "views-differ", what="images", **shape)
+        placed = [(by_bytes[b]["media"], ui + 1) for ui, row in enumerate(per_unit) for b in row]
+        ctx.require(_embeds(placed, shown), "image-on-wrong-unit", placed=placed, shown=shown, **shape)
+        for (m, un), (_, meta) in zip(placed, ctypes):
+            ctx.require(meta["unit_number"] in (None, un), "image-on-wrong-unit", unit_number=meta["unit_number"],
+                        expected=un, **shape)
+
+
+def _k4_parts(tier):
+    quick = tier == "quick"
+    base = {"max_total": 4, "chunks": [16] if quick else [1, 16, 4096], "missing": not quick}
+    parts = []
+    for f, max_units, rel_kinds in (("pptx", 2, 2), ("xlsx", 2, 2), ("docx", 1, 2), ("odp", 2, 1), ("epub", 2, 1)):
+        for nu in range(1, max_units + 1):
+            for one_rel in range(rel_kinds):
+                per = (3 if quick else 4) if nu == 1 else (2 if quick else 3)
+                part = dict(base, format=f, units=nu, per_unit=per, one_rel=bool(one_rel))
+                sub = [part] if nu == 1 else [dict(part, first_unit=k) for k in range(per + 1)]
+                # thorough: one part per size of the first read as well (96 parts of <= 4000 paths)
+                parts += [dict(q, chunks=[c]) for q in sub for c in q["chunks"]]
+    return parts
+
+
+# ---------------------------------------------------------------------------------------
 # K3v: unit views vs document iterators on content instances
 # ---------------------------------------------------------------------------------------
 
@@ -1198,10 +1394,34 @@ KERNELS = [
                     "resized on the sheet"],
            stubs=["ZipContext.read_bytes -> raises OSError at the chosen image read (fault parts only)"],
            assumptions=["images are PNG/JPEG/GIF/BMP written by the harness with distinct pixel sizes; every anchor "
-                        "references its own media member (shared media are not generated: the property text leaves "
-                        "open whether they are returned once or per anchor)"],
+                        "references its own media member (media shared between anchors: K4)"],
            outside=["odt, ods, odg, pdf, rtf packages (no writer in the harness); external links",
                     "bit-exactness of zipfile itself"],
+           timeout={"quick": 100, "thorough": 1100}),
+    Kernel("K4", "media parts shared between anchors (one relationship reused, several relationships with one Target, "
+                 "the same part on several slides/sheets/chapters) x the consumer's access order: every returned image "
+                 "delivers the embedded file bit-exact however the opening and (chunked) reading of two images is "
+                 "interleaved; shared parts returned per anchor or once, in document order, numbered 1..n, on a unit "
+                 "that shows them; unit views == document iterator",
+           k4_shared_media, targets=lambda: [r for _, r, _, _ in _k3_formats().values()], parts=_k4_parts,
+           strength="structure", core=False,
+           perturb=[("shared_part_returned_once", {"format": "pptx", "units": 2, "per_unit": 2, "max_total": 4,
+                                                   "chunks": [16], "missing": False, "one_rel": True, "first_unit": 2}),
+                    ("pieces_joined_in_reverse", {"format": "xlsx", "units": 1, "per_unit": 3, "max_total": 4,
+                                                  "chunks": [16], "missing": False, "one_rel": False}),
+                    ("numbers_from_zero", {"format": "epub", "units": 2, "per_unit": 2, "max_total": 4,
+                                           "chunks": [16], "missing": False, "one_rel": False, "first_unit": 1})],
+           choices=["anchors per unit (<= 4 in all; units 1..2)", "for every anchor the media part it shows: any part "
+                    "shown earlier or a new one (all sharing patterns)", "thorough: media part missing from the package",
+                    "consumer: one image after the other, or a pair of returned images (every pair) whose steps open / "
+                    "read first chunk / read rest are interleaved in all 20 ways", "size of the first read (16; "
+                    "thorough 1, 16, 4096)"],
+           assumptions=["a part shown by several anchors may be returned per anchor or once (the property text leaves "
+                        "it open): accepted are exactly the sequences between 'first uses' and 'every anchor' in "
+                        "document order", "one stream per image object (get_bytes() called once per schedule step "
+                        "'open'); re-reading happens only after the schedule, through the unit views"],
+           outside=["two streams of the SAME image object open at once; threads; pixel size of odp images (K3)",
+                    "odt, ods, odg, pdf, rtf packages"],
            timeout={"quick": 100, "thorough": 1100}),
     Kernel("K3v", "unit views vs document iterators on content instances (pdf, pptx, xlsx, odp, ods): inclusion and, "
                   "for these page/slide/sheet formats, equality as sequences",
@@ -1219,7 +1439,9 @@ META = {
                   "relationship-target resolvers of pptx/docx/xlsx/epub are executed on a Target whose every character "
                   "is symbolic and compared with OPC/RFC 3986 resolution for relative, parent-relative and absolute "
                   "targets. Numbering, order, unit attribution and the unit/document views are explored on generated "
-                  "packages through the public readers (structure choices, failing media read).",
+                  "packages through the public readers (structure choices, failing media read); K4 adds every pattern "
+                  "of media parts shared between anchors and every interleaving of opening / chunked reading of two "
+                  "returned images by the consumer.",
     "level_note": "Trusted: the reading of the format specifications in spec_declared and of OPC in _ref_resolve; the "
                   "struct stand-in (K1s) and the f-string/join rewriting for symbolic strings (K2s, and replay on the "
                   "original functions). Outside: size fields beyond the buffer bound, JPEGs with more segments before "
